@@ -16,6 +16,7 @@ import (
 	"sort"
 	"strconv"
 	"strings"
+	"sync"
 	"sync/atomic"
 	"time"
 
@@ -289,7 +290,24 @@ func safeExec(ex Executor, ops []Op) (lines []string) {
 	}
 }
 
+// cases being executed right now (for the memory guard in main.go)
+var (
+	inflightMu  sync.Mutex
+	inflight    = map[int64][]Op{}
+	inflightSeq int64
+)
+
 func safeExec1(ex Executor, ops []Op) (lines []string) {
+	inflightMu.Lock()
+	inflightSeq++
+	id := inflightSeq
+	inflight[id] = ops
+	inflightMu.Unlock()
+	defer func() {
+		inflightMu.Lock()
+		delete(inflight, id)
+		inflightMu.Unlock()
+	}()
 	defer func() {
 		if r := recover(); r != nil {
 			lines = append(lines, fmt.Sprintf("X crash => %v", r))
